@@ -23,15 +23,15 @@ Definition is_irreducible (a : list Z) : res bool :=
   if (length a <=? 1)%nat then Ok false
   else irred_loop (Nat.div (length a - 1) 2) a [0; 1].
 
-(** while True: a += 1; if a % p == 0: a += 1; _a = from_int(a);
-      if _a[-1] != 1: a = p**len(_a); continue;  if is_irreducible(_a): break *)
+(** while True: a += 1; if a % p == 0 and a != p: a += 1; _a = from_int(a);
+      if _a[-1] != 1: a = p**len(_a) - 1; continue;  if is_irreducible(_a): break *)
 Fixpoint next_loop (fuel : nat) (a : Z) : res (list Z) :=
   match fuel with
   | O => NoFuel
   | S f => let a := a + 1 in
-           let a := if a mod p =? 0 then a + 1 else a in
+           let a := if (a mod p =? 0) && negb (a =? p) then a + 1 else a in
            let _a := from_int p a in
-           if negb (last _a 0 =? 1) then next_loop f (p ^ Z.of_nat (length _a))
+           if negb (last _a 0 =? 1) then next_loop f (p ^ Z.of_nat (length _a) - 1)
            else bind (is_irreducible _a) (fun ir => if ir then Ok _a else next_loop f a)
   end.
 Definition next_irreducible (fuel : nat) (a : list Z) : res (list Z) := next_loop fuel (to_int p a).
@@ -195,48 +195,40 @@ Proof.
   apply (forallb_zrange next2_ok 0 1024). vm_cast_no_check (eq_refl true).
 Qed.
 
-(** generic class: the same statement is FALSE of the code as written: X is skipped (F-C24) *)
-Theorem next_irred_generic_refuted : exists p a b c,
-  prime p /\ next_irreducible p 600 (from_int p a) = Ok b /\
-  a < c < to_int p b /\ last (from_int p c) 0 = 1 /\ is_irreducible p (from_int p c) = Ok true.
-Proof.
-  exists 3, 0, [1; 1], 3. split; [apply is_prime_small_correct; reflexivity|]. vm_compute. repeat split; reflexivity.
-Qed.
-(** ... X is the only casualty: from a >= p on, the generic search is the least monic irreducible above a *)
-Theorem next_irreducible_bounded_from_p : forall p N, In (p, N) [(2, 512); (3, 243); (5, 625); (7, 343)] ->
-  forall a, p <= a < N ->
+(** generic class: the least monic irreducible above a, for every a in the bounded domains (X included: the
+    search no longer skips the candidate X, cf. the repaired finding F-C24-1) *)
+Theorem next_irreducible_bounded : forall p N, In (p, N) [(2, 512); (3, 243); (5, 625); (7, 343)] ->
+  forall a, 0 <= a < N ->
   exists b, next_irreducible p 600 (from_int p a) = Ok b /\ a < to_int p b /\ monic_irr p (to_int p b) = true /\
             forall c, a < c < to_int p b -> monic_irr p c = false.
 Proof.
   intros p N H a Ha. apply next_ok_spec. revert a Ha.
   cbn [In] in H. destruct H as [H|[H|[H|[H|[]]]]]; inversion H; subst p N; clear H.
-  - intros a Ha. apply (forallb_zrange (next_ok 2) 2 510); [vm_cast_no_check (eq_refl true)|lia].
-  - intros a Ha. apply (forallb_zrange (next_ok 3) 3 240); [vm_cast_no_check (eq_refl true)|lia].
-  - intros a Ha. apply (forallb_zrange (next_ok 5) 5 620); [vm_cast_no_check (eq_refl true)|lia].
-  - intros a Ha. apply (forallb_zrange (next_ok 7) 7 336); [vm_cast_no_check (eq_refl true)|lia].
+  - intros a Ha. apply (forallb_zrange (next_ok 2) 0 512); [vm_cast_no_check (eq_refl true)|lia].
+  - intros a Ha. apply (forallb_zrange (next_ok 3) 0 243); [vm_cast_no_check (eq_refl true)|lia].
+  - intros a Ha. apply (forallb_zrange (next_ok 5) 0 625); [vm_cast_no_check (eq_refl true)|lia].
+  - intros a Ha. apply (forallb_zrange (next_ok 7) 0 343); [vm_cast_no_check (eq_refl true)|lia].
 Qed.
-(** ... and below p it returns X+1 instead of X for every odd p in the bounded family *)
+(** in particular X itself is found from every a < p, for the odd primes of the bounded family *)
 Lemma list_eqb_true a b : list_eqb a b = true -> a = b.
 Proof.
   unfold list_eqb. revert b; induction a as [|x a IH]; intros [|y b]; cbn; try discriminate; [reflexivity|].
   intros H. apply andb_true_iff in H. destruct H as [H1 H2]. apply andb_true_iff in H2. destruct H2 as [H2 H3].
   apply Z.eqb_eq in H2. subst y. f_equal. apply IH. rewrite H1, H3. reflexivity.
 Qed.
-Definition skipsX_ok (q : Z) : bool :=
-  forallb (fun a => match next_irreducible q 600 (from_int q a) with Ok b => list_eqb b [1; 1] | _ => false end)
-          (zrange 0 (Z.to_nat q))
-  && match is_irreducible q [0; 1] with Ok true => true | _ => false end.
-Theorem next_irreducible_skips_X_bounded : forall p, In p [3; 5; 7; 11; 13] ->
-  forall a, 0 <= a < p -> next_irreducible p 600 (from_int p a) = Ok [1; 1] /\ is_irreducible p [0; 1] = Ok true.
+Definition findsX_ok (q : Z) : bool :=
+  forallb (fun a => match next_irreducible q 600 (from_int q a) with Ok b => list_eqb b [0; 1] | _ => false end)
+          (zrange 0 (Z.to_nat q)).
+Theorem next_irreducible_finds_X_bounded : forall p, In p [3; 5; 7; 11; 13] ->
+  forall a, 0 <= a < p -> next_irreducible p 600 (from_int p a) = Ok [0; 1].
 Proof.
   intros p H a Ha.
-  assert (K : skipsX_ok p = true).
+  assert (K : findsX_ok p = true).
   { cbn [In] in H. destruct H as [H|[H|[H|[H|[H|[]]]]]]; subst p; vm_cast_no_check (eq_refl true). }
-  unfold skipsX_ok in K. apply andb_true_iff in K. destruct K as [K1 K2]. split.
-  - pose proof (forallb_zrange _ _ _ K1 a ltac:(lia)) as E. cbv beta in E.
-    destruct (next_irreducible p 600 (from_int p a)) as [b| | |]; try discriminate.
-    apply list_eqb_true in E. congruence.
-  - destruct (is_irreducible p [0; 1]) as [[|]| | |]; try discriminate. reflexivity.
+  unfold findsX_ok in K.
+  pose proof (forallb_zrange _ _ _ K a ltac:(lia)) as E. cbv beta in E.
+  destruct (next_irreducible p 600 (from_int p a)) as [b| | |]; try discriminate.
+  apply list_eqb_true in E. congruence.
 Qed.
 
 (** find_irreducible(p, d): smallest monic irreducible of degree d (bounded d); for the generic class and d = 1 this
@@ -265,11 +257,10 @@ Proof.
     { apply (forallb_zrange (fun c => negb (irr2b c)) T (Z.to_nat (b - T)) H4). lia. }
     unfold irr2b in Hn. rewrite E in Hn. discriminate.
 Qed.
-(** generic class, d >= 2 (p^d - 1 >= p): find_irreducible(p, d) = next_irreducible(p^d - 1) is the least monic
-    irreducible of integer encoding >= p^d, on the bounded domains; for d = 1 it is X+1 instead of X
-    (next_irreducible_skips_X_bounded with a = p - 1) *)
+(** generic class: find_irreducible(p, d) = next_irreducible(p^d - 1) is the least monic irreducible of integer
+    encoding >= p^d (so of degree d), on the bounded domains, d = 1 included *)
 Theorem find_irreducible_bounded : forall p N, In (p, N) [(2, 512); (3, 243); (5, 625); (7, 343)] ->
-  forall d, p <= p ^ d - 1 < N ->
+  forall d, 0 <= p ^ d - 1 < N ->
   exists b, find_irreducible p 600 d = Ok b /\ p ^ d - 1 < to_int p b /\ monic_irr p (to_int p b) = true /\
             forall c, p ^ d - 1 < c < to_int p b -> monic_irr p c = false.
-Proof. intros p N H d Hd. exact (next_irreducible_bounded_from_p p N H (p ^ d - 1) Hd). Qed.
+Proof. intros p N H d Hd. exact (next_irreducible_bounded p N H (p ^ d - 1) Hd). Qed.
